@@ -313,7 +313,7 @@ def _pair_labels(case):
 REQUIRED_LABELS = ['flux_relations/kind:near', 'flux_relations/kind:equal', 'flux_relations/kind:rest', 'flux_relations/kind:sonic', 'flux_relations/kind:mirror', 'flux_relations/kind:super+', 'flux_relations/kind:super-', 'flux_relations/ratio>1e3', 'flux_relations/upwind+', 'flux_relations/upwind-', 'flux_relations/face:x', 'flux_relations/face:y', 'flux_relations/antisymmetric']
 
 SUBCHECKS = [
-    SubCheck("flux_relations", check, strategy=strat, examples={"quick": 700, "thorough": 5000}, shards={"quick": 4, "thorough": 16}),
+    SubCheck("flux_relations", check, strategy=strat, examples={"quick": 1500, "thorough": 5000}, shards={"quick": 8, "thorough": 16}),
 ]
 
 META = dict(
